@@ -43,8 +43,8 @@ type LockAudit struct {
 	// occurs instead of turning it into a requirement on the callers.
 	NoPropagate bool
 	fns         []*ssa.Function
-	paths   map[*ssa.Function][]Path
-	roots   map[*ssa.Function]*Frame
+	paths       map[*ssa.Function][]Path
+	roots       map[*ssa.Function]*Frame
 	// per function summaries
 	req      map[*ssa.Function]map[lockReq]string // requirement -> example access position
 	acq      map[*ssa.Function]map[lockAcq]bool
